@@ -17,6 +17,9 @@ Models: `Model/Fallback.lean` (`getExecParams`, `saRaises`, `prepareCols`); tabl
   NotImplementedError: `C17_cast_ok`, `C17_param_ok`, `C17_unop_iff`, `C17_table_position`,
   `C17_create_table_ok` (unconditional).  Still leaking: a Python list (Tuple) as operand, duplicate INSERT
   column (`C17_insert_dup_iff`).
+  [review] The last sentence describes history: on the regenerated tables of HEAD `tupleIsList = false` and
+  `dupExc = "sa"`, the premises of `C17_witness_tuple_operand` / `C17_witness_insert_dup` are false (vacuous), and
+  `clean` follows from the parser-shape invariant alone — see `C17_review_live*` below.
 * **T17.3** `C17_no_mutation`: `prepare_create_table` never writes to the caller's columns (unconditional
   since 0ccda5f; the only non-self attribute stores of the module are pinned to be none).
 * `C17_partial`: the property's three clauses for the model, under the explicit hypotheses `clean`,
@@ -355,6 +358,36 @@ theorem C17_repaired_witnesses :
     ∧ clean Gr false .stmt (sel [.mk (.binop "like" none) [tup [col "a"], col "c"]]) = true
     ∧ saRaises Gr false .stmt (.mk (.insert (.ident 1) (some ["a", "a"]) false true) [.mk .grp [.mk (.const none) [], .mk (.const none) []]]) = some .sa
     ∧ Gr.tupleIsList = false ∧ Gr.dupExc.caught = true := by decide
+
+/-! ### [review] the live tables ARE the repaired ones
+
+`Gen/SaTables.lean` regenerated from /repo HEAD has `tupleIsList = false` and `dupExc = "sa"`, i.e. fixes C17_1 / C17_3 have
+landed.  Consequences: (a) the premises of `C17_witness_tuple_operand` and `C17_witness_insert_dup` are FALSE today, so these two
+"witnesses" are vacuous implications, and the header sentence "Still leaking: a Python list (Tuple) as operand, duplicate INSERT
+column" describes history; (b) the hypothesis `clean` of `C17_partial` can be replaced, for the LIVE tables `G`, by the parser-shape
+invariant `shaped` alone.  Both facts break (the `decide`s below fail) if the code regresses. -/
+
+-- [review]
+theorem C17_review_live_tables : G.tupleIsList = false ∧ G.dupExc.caught = true := by decide
+
+-- [review] the two conditional witnesses are vacuous on the live tables
+example : ¬ (SaTables.tupleIsList = true) := by decide
+example : ¬ (SaTables.dupExc = "exception") := by decide
+
+/-- [review] **T17.2 for the live tables**: the renderer's own code raises at most the caught classes on EVERY parser-shaped tree -/
+theorem C17_review_live_own_tables (w : Bool) (c : Ctx) (t : T) (hs : shaped G w c t = true) :
+    saRaises G w c t = none ∨ saRaises G w c t = some .sa ∨ saRaises G w c t = some .notImpl :=
+  C17_repaired_own_tables G w c t C17_review_live_tables.1 C17_review_live_tables.2 hs
+
+/-- [review] **C17 (partial) for the live tables** without `clean`: only the shape invariant and the two behavioural hypotheses -/
+theorem C17_review_live {ρ : Type} (w : Bool) (t : T) (saPart : Outcome ρ) (printer : Outcome String)
+    (dn : String) (hs : shaped G w .stmt t = true) (hsa : saQuiet saPart = true)
+    (hpr : printerTotal printer = true) : Honours G w t saPart printer dn :=
+  C17_partial_repaired G w t saPart printer dn C17_review_live_tables.1 C17_review_live_tables.2 hs hsa hpr
+
+-- [review] non-vacuity on the live tables: `select (a, b) + f(distinct a) from t join (native query)`
+example : shaped G false .stmt (sel [.mk (.binop "+" none) [tup [col "a", col "b"], .mk (.func true false none) [col "a"]]]
+    (.mk (.join false "JOIN") [.mk (.ident 1 "t" none) [], .mk (.nativeQuery (some 1)) [], .mk .nil []])) = true := by decide
 
 /-- `shaped` is not vacuous, and it is needed: a Star as the receiver of an operator is an AttributeError -/
 example : shaped Gr false .stmt (sel [.mk (.binop "+" none) [tup [col "a", col "b"], .mk (.func true false none) [col "a"]]]
